@@ -380,42 +380,47 @@ def parseU32 (digits : Bytes) (radix : Nat) : Option Nat :=
     let n := digits.foldl (fun acc b => acc * radix + digitVal b) 0
     if n < 4294967296 then some n else none
 
+/-- the trailing `;` of a reference: `self.consume_byte(b';').ok()?` -/
+def Stream.finishRef (s : Stream) (r : Reference) : Stream × Option Reference :=
+  match s.rest with
+  | b :: r' => if b == bSemi then (⟨s.pos + 1, r'⟩, some r) else (s, none)
+  | [] => (s, none)
+
+/-- `&#...;` / `&#x...;` after the `#` (and `x`) have been consumed -/
+def Stream.numericRef (s : Stream) (isHex : Bool) : Stream × Option Reference :=
+  let sv := if isHex then s.consumeBytes isHexDigit else s.consumeBytes isDecDigit
+  match parseU32 sv.2.bytes (if isHex then 16 else 10) with
+  | none => (sv.1, none)
+  | some n =>
+    let c := if isScalar n then n else 0xFFFD
+    if !(charIsXmlChar T c) then (sv.1, none) else sv.1.finishRef (.char c)
+
+/-- `&name;` after the `&` has been consumed -/
+def Stream.namedRef (s : Stream) : Res (Stream × Option Reference) :=
+  match s.consumeName T txt with
+  | .err _ => .ok (s, none)
+  | .panic p => .panic p
+  | .fuel => .fuel
+  | .ok (s, name) =>
+    let r : Reference :=
+      if name.bytes == Lit.quot then .char 34
+      else if name.bytes == Lit.amp then .char 38
+      else if name.bytes == Lit.apos then .char 39
+      else if name.bytes == Lit.lt then .char 60
+      else if name.bytes == Lit.gt then .char 62
+      else .entity name
+    .ok (s.finishRef r)
+
 /-- `consume_reference`: `none` for a malformed reference. The returned stream is only
 meaningful when the result is `some`. -/
 def Stream.consumeReference (s : Stream) : Res (Stream × Option Reference) :=
-  let (s, ok) := s.tryConsumeByte bAmp
-  if !ok then .ok (s, none) else
-  let (s, isNum) := s.tryConsumeByte bHash
-  if isNum then
-    let (s, isHex) := s.tryConsumeByte bX
-    let (s, value, radix) :=
-      if isHex then let (s, v) := s.consumeBytes isHexDigit; (s, v, 16)
-      else let (s, v) := s.consumeBytes isDecDigit; (s, v, 10)
-    match parseU32 value.bytes radix with
-    | none => .ok (s, none)
-    | some n =>
-      let c := if isScalar n then n else 0xFFFD
-      if !(charIsXmlChar T c) then .ok (s, none)
-      else
-        match s.rest with
-        | b :: r => if b == bSemi then .ok (⟨s.pos + 1, r⟩, some (.char c)) else .ok (s, none)
-        | [] => .ok (s, none)
-  else
-    match s.consumeName T txt with
-    | .err _ => .ok (s, none)
-    | .panic p => .panic p
-    | .fuel => .fuel
-    | .ok (s, name) =>
-      let r : Reference :=
-        if name.bytes == Lit.quot then .char 34
-        else if name.bytes == Lit.amp then .char 38
-        else if name.bytes == Lit.apos then .char 39
-        else if name.bytes == Lit.lt then .char 60
-        else if name.bytes == Lit.gt then .char 62
-        else .entity name
-      match s.rest with
-      | b :: r' => if b == bSemi then .ok (⟨s.pos + 1, r'⟩, some r) else .ok (s, none)
-      | [] => .ok (s, none)
+  let p1 := s.tryConsumeByte bAmp
+  if !p1.2 then .ok (p1.1, none) else
+  let p2 := p1.1.tryConsumeByte bHash
+  if p2.2 then
+    let p3 := p2.1.tryConsumeByte bX
+    .ok (p3.1.numericRef T p3.2)
+  else p2.1.namedRef T txt
 
 end
 
